@@ -107,6 +107,11 @@ def canon (s : Str) : Str := if s.all validFieldByte then canonGo true s else s
 
 abbrev Hdr := List (Str × List Str)
 
+/-- remove repeated elements, keeping first occurrences -/
+def dedup : List Str → List Str
+  | [] => []
+  | x :: xs => x :: (dedup xs).filter (fun y => y != x)
+
 namespace Hdr
 
 /-- `h[k]` (raw map access) -/
@@ -136,7 +141,7 @@ def set (h : Hdr) (name v : Str) : Hdr := h.setRaw (canon name) [v]
 def add (h : Hdr) (name v : Str) : Hdr := h.setRaw (canon name) (h.vals (canon name) ++ [v])
 
 /-- the distinct keys, in first-occurrence order -/
-def keys (h : Hdr) : List Str := (h.map (·.1)).eraseDups
+def keys (h : Hdr) : List Str := dedup (h.map (·.1))
 
 end Hdr
 
